@@ -1,4 +1,5 @@
 """C18 - stateless API: no history, aliasing or thread interference."""
+import contextlib
 import json, copy, hashlib, threading, random as pyrandom
 from harness import fw, impl, authsim, authcat, authrun, regsim, regcat, regrun, oracle
 
@@ -400,6 +401,76 @@ def run(tier, seed):
                 chk.violation(f"a {kind} credential record that was verified before and then given the fields of another ceremony is judged differently from a fresh record with the same fields: {got[:50]} instead of {want[:50]}",
                               f"record-object-reuse {kind}", {"history": trace, "reused_record_outcome": got, "fresh_record_outcome": want})
                 break
+    # the RP's policy kept in long-lived lists which it edits IN PLACE when the policy changes (same object, same length): every call reads the lists as they are now
+    for kind in ("auth", "reg"):
+        for i in range(3):
+            if kind == "auth":
+                s_ = authcat.Scn(("ES256-P256", "EdDSA", "RS256")[i]); s_.challenge = b"policy-reuse-challenge-%d" % i
+                s_.exp_origin = [s_.origin, "https://second.example", "https://third.example"][: i + 1] if i else s_.origin
+                pol_, a_ = s_.build()
+                val_, cdj_, entry_, pr_ = a_.as_record(), a_.cdj, _w.verify_authentication_response, impl.pr_verified_auth
+            else:
+                s_ = regsim.RScn("none", ("ES256-P256", "EdDSA", "RS256")[i]); s_.challenge = b"policy-reuse-challenge-%d" % i
+                pd_, r_ = regsim.build(s_)
+                pol_ = regrun.policy_of(pd_)
+                if i:
+                    pol_.origin = [pol_.origin, "https://second.example", "https://third.example"][: i + 1]
+                val_, cdj_, entry_, pr_ = r_.as_dict(), r_.cdj, _w.verify_registration_response, impl.pr_verified_reg
+            with impl.substituted(getattr(pol_, "substitute", {}), getattr(pol_, "now", None)) if kind == "reg" else contextlib.nullcontext():
+                base = impl.outcome(lambda: entry_(credential=val_, **pol_.kwargs()), pr_)
+                # the policy that is in force now does NOT include this response's origin any more (it did a moment ago, in the same list object)
+                import copy as _cp
+                pol2 = _cp.copy(pol_)
+                pol2.origin = ["https://new-tenant.example"] + (list(pol_.origin[1:]) if isinstance(pol_.origin, list) else [])
+                fresh = impl.outcome(lambda: entry_(credential=val_, **pol2.kwargs()), pr_)
+                reused = impl.reused_policy_containers(entry_, pol2, val_, cdj_, pr_)
+                reused_same = impl.reused_policy_containers(entry_, pol_, val_, cdj_, pr_)
+            chk.evals += 6
+            if reused != fresh or reused_same != base:
+                chk.violation(f"a {kind} call made with the RP's long-lived expected-origin list, edited in place since an earlier call, is judged by the list's EARLIER content: {str(reused)[:50]} / {str(reused_same)[:50]} instead of {fresh[:50]} / {base[:50]}",
+                              f"policy-list-edited-in-place {kind}", {"kind": kind, "outcome_with_reused_list": reused, "outcome_with_fresh_list": fresh, "expected_origin_now": pol2.origin})
+                break
+    # what registration RETURNED, used the way an RP uses it - helpers called on the returned objects, the helpers' results edited, and then the returned objects THEMSELVES (not
+    # copies of them) handed to authentication: the outcome is that of equal plain values
+    from webauthn.helpers import decode_credential_public_key as _dcpk, parse_attestation_object as _pao
+    for i, kindk in enumerate(("ES256-P256", "EdDSA", "RS256")):
+        s_ = regsim.RScn(("none", "packed", "none")[i], kindk); s_.challenge = b"returned-object-challenge-%d" % i
+        pd_, r_ = regsim.build(s_)
+        polr = regrun.policy_of(pd_)
+        try:
+            with impl.substituted(polr.substitute, polr.now):
+                vr = _w.verify_registration_response(credential=r_.as_dict(), **polr.kwargs())
+        except Exception:
+            continue
+        key_obj, id_obj = vr.credential_public_key, vr.credential_id
+        plain_key, plain_id = bytes(bytearray(key_obj)), bytes(bytearray(id_obj))
+        for helper, arg in ((_dcpk, key_obj), (_pao, vr.attestation_object)):
+            try:
+                impl.vandalise_any(helper(arg))
+                impl.vandalise_any(helper(arg))
+            except Exception:
+                pass
+        for attr_owner in (key_obj, id_obj, vr.attestation_object):
+            try:
+                for v_ in list(vars(attr_owner).values()):
+                    impl.vandalise_any(v_)
+            except TypeError:
+                pass
+        cred = authsim.Cred(kindk, slot=getattr(s_, "cred_slot", 0))
+        s2 = authcat.Scn(kindk); s2.challenge = b"returned-object-auth-%d" % i; s2.rp_id = s_.rp_id; s2.cred_id = plain_id
+        pol_a, a_ = s2.build()
+        if cred.cose_bytes != plain_key:
+            continue
+        outs = []
+        for key_arg, id_arg in ((key_obj, id_obj), (plain_key, plain_id)):
+            from webauthn.helpers.structs import AuthenticationCredential as _AC2, AuthenticatorAssertionResponse as _AAR2
+            rec_ = _AC2(id=a_.id_text, raw_id=id_arg, response=_AAR2(client_data_json=a_.cdj, authenticator_data=a_.ad, signature=a_.sig))
+            kw_ = dict(pol_a.kwargs(), credential_public_key=key_arg)
+            outs.append(impl.outcome(lambda: _w.verify_authentication_response(credential=rec_, **kw_), impl.pr_verified_auth))
+        chk.evals += 3
+        if outs[0] != outs[1] or not outs[1].startswith("OK"):
+            chk.violation(f"authentication with the very objects registration returned (after helper results obtained from them were edited) differs from authentication with equal plain bytes: {outs[0][:60]} instead of {outs[1][:60]}",
+                          f"returned-objects-fed-back {kindk}", {"kind": kindk, "with_returned_objects": outs[0], "with_plain_bytes": outs[1], "stored_key": plain_key.hex()})
     # "the clock" is the clock at the time of the call - not at import, first use or any earlier call: a certificate that becomes valid (another that expires) while this
     # process runs changes verdict accordingly (real clock, nothing substituted)
     from harness import realclock
